@@ -2,6 +2,7 @@ package main
 
 import (
 	"fmt"
+	"os"
 	"go/ast"
 	"go/constant"
 	"go/token"
@@ -91,6 +92,9 @@ func (e *specEnv) lookupIdent(name string) (SVal, error) {
 	}
 	if e.fr != nil {
 		if v, ok := e.fr.lookupLocal(name, e.at, e.st); ok {
+			if os.Getenv("GOVC_DEBUG") != "" {
+				fmt.Fprintf(os.Stderr, "lookupLocal %s -> %q lv=%v ty=%v\n", name, v.V.T.S, v.V.LV, v.Ty)
+			}
 			return v, nil
 		}
 	}
@@ -169,28 +173,58 @@ func (fr *Frame) lookupLocal(name string, at *ssa.BasicBlock, st *State) (SVal, 
 			}
 			return d
 		}
-		for _, b := range fn.Blocks {
-			if !(b.Dominates(at)) {
-				continue
+		// candidates: every debug reference to the variable whose value is available at `at`
+		// (its defining block dominates `at`); computed values win over constants, deeper definitions over shallower.
+		defBlock := func(v ssa.Value) *ssa.BasicBlock {
+			if in, ok := v.(ssa.Instruction); ok {
+				return in.Block()
 			}
-			d := depth(b)
+			return fn.Blocks[0]
+		}
+		bestConst := true
+		for _, b := range fn.Blocks {
 			for _, in := range b.Instrs {
 				switch x := in.(type) {
 				case *ssa.Phi:
-					if x.Comment == name && b != at && d >= bestDepth {
-						best, bestAddr, bestDepth = x, false, d
+					if x.Comment == name && b != at && b.Dominates(at) {
+						d := depth(b)
+						if best == nil || bestConst || d >= bestDepth {
+							best, bestAddr, bestDepth, bestConst = x, false, d, false
+						}
 					}
 				case *ssa.DebugRef:
-					if b == at {
+					id, ok := x.Expr.(*ast.Ident)
+					if !ok || id.Name != name {
 						continue
 					}
-					if id, ok := x.Expr.(*ast.Ident); ok && id.Name == name && d >= bestDepth {
-						if obj := x.Object(); obj != nil {
-							if _, isVar := obj.(*types.Var); !isVar {
-								continue
-							}
+					if obj := x.Object(); obj != nil {
+						if _, isVar := obj.(*types.Var); !isVar {
+							continue
 						}
-						best, bestAddr, bestDepth = x.X, x.IsAddr, d
+					}
+					db := defBlock(x.X)
+					if db == at {
+						if _, isPhi := x.X.(*ssa.Phi); !isPhi {
+							continue // defined inside the header block after the phis: not available at its start
+						}
+					}
+					if !db.Dominates(at) {
+						continue
+					}
+					_, isConst := x.X.(*ssa.Const)
+					d := depth(db)
+					if isConst {
+						// a constant reference is only meaningful if it textually dominates
+						if !b.Dominates(at) || b == at {
+							continue
+						}
+						if best == nil {
+							best, bestAddr, bestDepth, bestConst = x.X, x.IsAddr, d, true
+						}
+						continue
+					}
+					if best == nil || bestConst || d >= bestDepth {
+						best, bestAddr, bestDepth, bestConst = x.X, x.IsAddr, d, false
 					}
 				}
 			}
@@ -204,6 +238,9 @@ func (fr *Frame) lookupLocal(name string, at *ssa.BasicBlock, st *State) (SVal, 
 				}
 				lv := fr.fx.pointee(pv, elem)
 				return sv(fr.fx.readLV(st, lv), elem), true
+			}
+			if os.Getenv("GOVC_DEBUG") != "" {
+				fmt.Fprintf(os.Stderr, "best for %s = %s (%T) in %s -> %q\n", name, best.Name(), best, fr.fn.Name(), fr.val(best).T.S)
 			}
 			return SVal{V: fr.val(best), Ty: best.Type()}, true
 		}
@@ -392,7 +429,7 @@ func (e *specEnv) selectField(v SVal, name string) (SVal, error) {
 			if isStruct(f.Type()) || isArray(f.Type()) {
 				return sv(fx.subRef(ref, key), f.Type()), nil
 			}
-			lv := &LV{Key: key, Ref: ref, Sort: sortOf(f.Type())}
+			lv := &LV{Key: key, Ref: ref, Sort: sortOf(f.Type()), IsRef: isRefTy(f.Type())}
 			return sv(fx.readLV(e.st, lv), f.Type()), nil
 		}
 	}
@@ -405,7 +442,7 @@ func (e *specEnv) selectField(v SVal, name string) (SVal, error) {
 			if isStruct(f.Type()) {
 				inner = sv(fx.subRef(ref, key), f.Type())
 			} else {
-				lv := &LV{Key: key, Ref: ref, Sort: sortOf(f.Type())}
+				lv := &LV{Key: key, Ref: ref, Sort: sortOf(f.Type()), IsRef: isRefTy(f.Type())}
 				inner = sv(fx.readLV(e.st, lv), f.Type())
 			}
 			if r, err := e.selectField(inner, name); err == nil {
@@ -430,7 +467,7 @@ func (e *specEnv) indexVal(b, i SVal) (SVal, error) {
 	case *types.Slice:
 		es := sortOf(t.Elem())
 		idx := Add(SlOff(bt), it)
-		lv := &LV{Key: elemKey(es), Ref: SlBase(bt), Idx: &idx, Sort: es}
+		lv := &LV{Key: elemKey(es), Ref: SlBase(bt), Idx: &idx, Sort: es, IsRef: isRefTy(t.Elem())}
 		return sv(fx.readLV(e.st, lv), t.Elem()), nil
 	case *types.Map:
 		_, _, _, vs := mapKeys(t)
@@ -635,6 +672,19 @@ func (e *specEnv) call(n *ast.CallExpr) (SVal, error) {
 			}
 		}
 		return oe.eval(n.Args[0])
+	case "at":
+		lit, ok := n.Args[0].(*ast.BasicLit)
+		if !ok || len(n.Args) != 2 {
+			return SVal{}, fmt.Errorf("at(\"label\", expr)")
+		}
+		label, _ := strconv.Unquote(lit.Value)
+		ms, ok := fx.marks[label]
+		if !ok {
+			return SVal{}, fmt.Errorf("mark %q was not reached (the call it is anchored to no longer exists)", label)
+		}
+		ae := e.child()
+		ae.st = ms
+		return ae.eval(n.Args[1])
 	case "hdr":
 		if e.hdrEnv == nil {
 			return SVal{}, fmt.Errorf("hdr() is only available in loop step clauses")
@@ -713,7 +763,7 @@ func (e *specEnv) call(n *ast.CallExpr) (SVal, error) {
 			oe.vars[id.Name] = sv(bv, intT)
 			ce.oldEnv = oe
 		}
-		body, err := ce.evalBool(n.Args[3])
+		body, err := ce.evalQuantBody(n.Args[3])
 		if err != nil {
 			return SVal{}, err
 		}
@@ -721,7 +771,26 @@ func (e *specEnv) call(n *ast.CallExpr) (SVal, error) {
 		if name == "forall" {
 			return sv(Term{fmt.Sprintf("(forall ((%s Int)) %s)", bv.S, Implies(rng, body).S), SBool}, boolT), nil
 		}
-		return sv(Term{fmt.Sprintf("(exists ((%s Int)) %s)", bv.S, And(rng, body).S), SBool}, boolT), nil
+		ex := Term{fmt.Sprintf("(exists ((%s Int)) %s)", bv.S, And(rng, body).S), SBool}
+		// witness hints: instances of the body at the loop indices in scope (each implies the existential, so the
+		// disjunction is equivalent to it; the instances spare the solver the search for the witness)
+		var alts []Term
+		for _, w := range e.witnessCandidates() {
+			we := e.child()
+			we.vars[id.Name] = sv(w, intT)
+			if we.oldEnv != nil {
+				oe := we.oldEnv.child()
+				oe.vars[id.Name] = sv(w, intT)
+				we.oldEnv = oe
+			}
+			if b, err := we.evalQuantBody(n.Args[3]); err == nil {
+				alts = append(alts, And(Le(lo, w), Lt(w, hi), b))
+			}
+		}
+		if len(alts) > 0 {
+			return sv(Or(append(alts, ex)...), boolT), nil
+		}
+		return sv(ex, boolT), nil
 	case "forallstr", "existsstr", "forallint", "existsint":
 		// forallstr(k, body): unbounded quantifier over strings / ints
 		if len(n.Args) != 2 {
@@ -744,7 +813,7 @@ func (e *specEnv) call(n *ast.CallExpr) (SVal, error) {
 			oe.vars[id.Name] = sv(bv, gty)
 			ce.oldEnv = oe
 		}
-		body, err := ce.evalBool(n.Args[1])
+		body, err := ce.evalQuantBody(n.Args[1])
 		if err != nil {
 			return SVal{}, err
 		}
@@ -1115,7 +1184,7 @@ func (e *specEnv) goCall(n *ast.CallExpr) (SVal, error) {
 		}
 		args = append(args, v.V)
 	}
-	if ct := fx.eng.contractFor(fn); ct != nil && ct.Flags["pure"] && fn.Signature.Results().Len() == 1 {
+	if ct := fx.eng.contractFor(fn); ct != nil && ct.Flags["deterministic"] && fn.Signature.Results().Len() == 1 {
 		rt := fn.Signature.Results().At(0).Type()
 		var tys []types.Type
 		for _, p := range fn.Params {
@@ -1158,4 +1227,44 @@ func exprString(x ast.Expr) string {
 		return exprString(n.X) + "." + n.Sel.Name
 	}
 	return fmt.Sprintf("%T", x)
+}
+
+
+// evalQuantBody evaluates a quantifier body: nothing mentioning the bound variable may leak into the context.
+func (e *specEnv) evalQuantBody(x ast.Expr) (t Term, err error) {
+	e.fx.ctx.quant++
+	defer func() {
+		e.fx.ctx.quant--
+		if r := recover(); r != nil {
+			err = fmt.Errorf("quantifier body: %v", r)
+		}
+	}()
+	return e.evalBool(x)
+}
+
+
+// witnessCandidates: integer loop variables of the frame (and their successors), used as existential witness hints.
+func (e *specEnv) witnessCandidates() []Term {
+	if e.fr == nil || e.fx.ctx.quant > 0 {
+		return nil
+	}
+	var out []Term
+	for _, b := range e.fr.fn.Blocks {
+		for _, in := range b.Instrs {
+			phi, ok := in.(*ssa.Phi)
+			if !ok {
+				break
+			}
+			if sortOf(phi.Type()) != SInt || isRefLike(phi.Type()) {
+				continue
+			}
+			if v, ok := e.fr.vals[phi]; ok && v.T.S != "" {
+				out = append(out, v.T, Add(v.T, Int(1)))
+			}
+			if len(out) >= 8 {
+				return out
+			}
+		}
+	}
+	return out
 }
